@@ -117,6 +117,20 @@ def _listed(known, obname, wit):
     return False
 
 
+def run_bounded(script, tier, seed, timeout=3600):
+    """Run a native stand-in under /venv/bin/python with PYTHONPATH=<repo>:<verif>/native."""
+    import subprocess
+    from lvc.repo import REPO
+    env = dict(os.environ)
+    env['PYTHONPATH'] = REPO + ':' + os.path.join(VERIF, 'native')
+    p = subprocess.run(['/venv/bin/python', '-W', 'ignore', os.path.join(VERIF, 'native', script), tier, str(seed)],
+                       capture_output=True, text=True, env=env, timeout=timeout)
+    if p.returncode != 0:
+        raise RuntimeError('bounded stand-in %s failed:\n%s' % (script, p.stderr[-2000:]))
+    out = p.stdout
+    return json.loads(out[out.index('['):])
+
+
 def load_known():
     p = os.path.join(VERIF, 'known_findings.json')
     if not os.path.exists(p):
@@ -186,6 +200,12 @@ def run_property(prop_id, tier='quick', seed=0, jobs=None):
         except Exception:
             crashes.append({'name': 'bounded', 'detail': traceback.format_exc()})
         for b in bounded:
+            for wname, info in (b.get('known_by_witness') or {}).items():
+                if _listed(known, 'bounded:' + b['name'], wname):
+                    known_seen[('bounded:' + b['name'], wname)] = info['cases']
+                else:
+                    b['violations'] = b.get('violations', 0) + info['cases']
+                    b['first_violation'] = b.get('first_violation') or info['first']
             if b.get('violations'):
                 bviol.append(b)
 
